@@ -267,6 +267,8 @@ func globalsMode(dir, outPrefix, shim string) {
 		})
 	}
 	changed := map[string]bool{}
+	hasAccess := map[string]bool{}
+	usesShimOnly := map[string]bool{}
 	cur := ""
 	access := func(set map[string]bool) ast.Stmt {
 		var l []string
@@ -275,6 +277,7 @@ func globalsMode(dir, outPrefix, shim string) {
 		}
 		sort.Strings(l)
 		changed[cur] = true
+		hasAccess[cur] = true
 		return &ast.ExprStmt{X: &ast.CallExpr{Fun: sel("verifvs", "Access"), Args: []ast.Expr{&ast.BasicLit{Kind: token.STRING, Value: strconv.Quote(strings.Join(l, ","))}}}}
 	}
 	var doList func(list []ast.Stmt) []ast.Stmt
@@ -407,12 +410,30 @@ func globalsMode(dir, outPrefix, shim string) {
 	}
 	sort.Strings(vars)
 	fmt.Fprintf(os.Stderr, "rewrite globals %s: suspect package-level variables: %s\n", dir, strings.Join(vars, " "))
+	// a file that uses the real sync package would block a cooperative thread
+	// for good (the holder of a lock may be suspended at an access point): the
+	// import is redirected to the shim, whose Mutex/RWMutex/WaitGroup/Once are
+	// scheduling points. Anything the shim lacks fails to compile (exit 3).
+	for _, p := range names {
+		for _, im := range files[p].Imports {
+			if path, _ := strconv.Unquote(im.Path.Value); path == "sync" {
+				if im.Name == nil {
+					im.Name = ast.NewIdent("sync")
+				}
+				im.Path.Value = strconv.Quote(shim)
+				changed[p] = true
+				usesShimOnly[p] = true
+			}
+		}
+	}
 	for _, p := range names {
 		if !changed[p] {
 			continue
 		}
 		f := files[p]
-		addImport(f, "verifvs", shim)
+		if hasAccess[p] {
+			addImport(f, "verifvs", shim)
+		}
 		var buf bytes.Buffer
 		cfg := printer.Config{Mode: printer.UseSpaces | printer.TabIndent, Tabwidth: 8}
 		f.Comments = keepDirectives(f)
